@@ -39,8 +39,7 @@ P.assume("bookkeeping invariant established by reb_simulation_add_variation_* (p
 P.assume("the specification is defined: |x_k - x_s|^2 != 0 for every specified pair (instantiated at the visited pair)")
 P.assume("REB_GRAVITY_COMPENSATED: r->gravity_cs holds N_allocated_gravity_cs >= N elements (reb_calculate_acceleration, which "
          "every caller runs first, reallocates it to N elements)")
-P.assume("softening == 0: reb_calculate_acceleration_var never reads r->softening (see the finding "
-         "first_order.softening: with softening != 0 the routine is NOT the derivative of the softened force)")
+# softening is symbolic: since the fix the routine uses r^2 + softening^2 like reb_calculate_acceleration (finding first_order.softening)
 P.trust("accumulation rule (DESIGN 3.3): from body contract, frame and iteration-space equality, accumulator_final = "
         "accumulator_initial + sum of the specified terms over the specified contribution set")
 
@@ -140,7 +139,7 @@ class Cfg:
     pass
 
 
-def setup(v, gravity, order, testparticle, soft_zero=True, tp_type=None):
+def setup(v, gravity, order, testparticle, soft_zero=False, tp_type=None):
     c = Cfg()
     c.v = v
     c.r, c.rp = v.struct_obj("struct reb_simulation", "r")
@@ -604,8 +603,9 @@ first_order_full("REB_GRAVITY_BASIC", restrict=False, name="first_order.iterspac
 
 @P.task("first_order.softening", fn=FN, timeout=300)
 def _(v):
-    """FINDING (genuine, natively reproduced): the derivative of the SOFTENED pair force (the force the real routine
-    uses: r^2 = |d|^2 + softening^2) is not what the routine adds: it never reads r->softening.  Stated as an INSTANCE of
+    """FINDING (genuine, natively reproduced, repaired by a fix: commit): the derivative of the SOFTENED pair force (the
+    force the real routine uses: r^2 = |d|^2 + softening^2) was not what the routine added: it never read r->softening.
+    All first/second-order tasks now carry a symbolic softening; this task keeps the finding as an INSTANCE of
     the body contract at the separation d = (2,3,6), softening = 24 (both square roots rational: 7 and 25), everything
     else symbolic.  Native (tools/repro/C16_variational_force_ignores_softening.py): m=1 + m=1e-3 at x=1, vy=1, softening 0.5, IAS15 to t=2: d x_1/d x_1(0) = 1.9312 by central
     differences, variational particle 3.2861 (softening 0: 2.7931 both)."""
